@@ -617,8 +617,58 @@ def bounds(tier, seed):
 NSH = 48
 
 
+def check_wide(case, acc):
+    """Wide registers (number of measurement keys = mid-circuit measurements + qubits on both sides of 10): deterministic programs
+    X(0) X(2) X(n-1) MEASURE(2) X(1) [MEASURE(n-1)], finite shots; every table and the post-selected expectation value are known."""
+    from tangelo.linq import get_backend
+    from tangelo.toolboxes.operators import QubitOperator
+    n, nm, shots = case["n"], case["n_meas"], case["n_shots"]
+    prog = [G("X", [0]), G("X", [2]), G("X", [n - 1]), M(2), G("X", [1])] + ([M(n - 1)] if nm == 2 else [])
+    mid = "1" * nm
+    final = "".join("1" if q in (0, 1, 2, n - 1) else "0" for q in range(n))
+    op = QubitOperator(f"Z{n - 1}", 1.0) + QubitOperator("Z1 Z5", 0.5) + QubitOperator(f"Z3 Z{n - 2}", 0.25)
+    ref_val = -1.0 + 0.5 * (-1.0) + 0.25
+
+    def bad(kind, detail):
+        acc.violation(f"wide/{kind}/n{n}+m{nm}", case, detail, group=f"wide/{kind}")
+
+    def run(ch):
+        circ = mk_circ(prog, n, None)
+        be = get_backend("cirq", n_shots=shots)
+        be.cirq = seams.CirqProxy(ch)
+        fr, _ = be.simulate(circ, save_mid_circuit_meas=True)
+        out = {"fr": {k: float(v) for k, v in fr.items()}, "all": dict(be.all_frequencies), "mid": dict(be.mid_circuit_meas_freqs)}
+        be2 = get_backend("cirq", n_shots=shots)
+        be2.cirq = seams.CirqProxy(ch)
+        out["exp"] = complex(be2.get_expectation_value(op, mk_circ(prog, n, None), desired_meas_result=mid))
+        return out
+
+    n_exec = 0
+    try:
+        for choices, trace, infos, out in choicetree.explore(run, max_exec=64):
+            n_exec += 1
+            acc.ev()
+            acc.transitions += len(trace)
+            if out["fr"] != {final: 1.0} or out["all"] != {mid + final: 1.0} or out["mid"] != {mid: 1.0}:
+                bad("tables", {"frequencies": out["fr"], "all_frequencies": out["all"], "mid": out["mid"],
+                               "expected": {"frequencies": {final: 1.0}, "all_frequencies": {mid + final: 1.0}}})
+                break
+            if abs(out["exp"] - ref_val) > 1e-9:
+                bad("post-selected-expectation-value", {"got": out["exp"], "ref": ref_val})
+                break
+            acc.out(("wide", n, nm))
+    except Exception as e:
+        if isinstance(e, (seams.UnownedRandomness, choicetree.ReplayDivergence)):
+            raise
+        bad("exception", {"err": repr(e)[:300]})
+    acc.states += max(1, n_exec)
+    acc.nt(("wide", n, nm, shots))
+
+
 def shards(tier, seed):
     sh = []
+    for n in (9, 10, 11, 12):
+        sh.append({"kind": "wide", "n": n, "seed": seed, "tier": tier})
     for kind in ("measure", "cmeasure"):
         for i in range(NSH):
             sh.append({"kind": "exact", "pk": kind, "part": i, "seed": seed, "tier": tier})
@@ -633,7 +683,12 @@ def shards(tier, seed):
 def run_shard(sh):
     acc = Acc()
     seed, tier, k = sh["seed"], sh["tier"], sh["kind"]
-    if k == "exact":
+    if k == "wide":
+        for nm in (1, 2):
+            for shots in (1, 2):
+                check_wide({"kind": "wide", "n": sh["n"], "n_meas": nm, "n_shots": shots}, acc)
+        acc.sample({"kind": "wide", "n": sh["n"], "n_meas": 1, "n_shots": 2}, cap=1)
+    elif k == "exact":
         progs = programs(tier, seed, sh["pk"])
         for i, prog in enumerate(progs):
             if i % NSH != sh["part"]:
@@ -716,6 +771,8 @@ def replay_case(case):
         check_cmeasure_shots(case, acc)
     elif k == "mshots_dmr":
         check_measure_shots_dmr(case, acc)
+    elif k == "wide":
+        check_wide(case, acc)
     return acc
 
 
